@@ -548,6 +548,42 @@ func c15r35(c *Ctx, r *Report) {
 	r.floor("initialisations of Terminal.header", n, 1)
 }
 
+// c19r20: the walker compares --walker-skip entries with paths that never end in a separator (the separator of a
+// directory is appended after the tests), so an entry written with a trailing separator — what shell completion
+// produces for a directory — can never match. readFiles therefore removes trailing separators from an entry
+// before it classifies it (D119: it did not: `--walker-skip=node_modules/` skipped nothing).
+func c19r20(c *Ctx, r *Report) {
+	l := c.L
+	r.rule("C19-R20", "C (skip entries are normalised like the paths they are compared with)", "P1",
+		"in Reader.readFiles, the skip entries are tested with os.IsPathSeparator on their last byte (or trimmed with strings.TrimRight) before they are classified",
+		"a skip entry with a trailing separator silently matches nothing: the directory the user wanted to prune is listed")
+	fn := l.Fn("fzf", "(*Reader).readFiles")
+	if fn == nil || len(fn.Params) < 4 {
+		r.unest("anchors", token.NoPos, nil, "anchor Reader.readFiles", "cannot resolve")
+		return
+	}
+	ignores := fn.Params[3]
+	found := 0
+	eachInstr(fn, func(in ssa.Instruction) {
+		call, ok := in.(*ssa.Call)
+		if !ok {
+			return
+		}
+		nm := calleeName(call.Common())
+		if nm != "os.IsPathSeparator" && nm != "strings.TrimRight" && nm != "strings.TrimSuffix" {
+			return
+		}
+		for v := range backwardSlice(call.Call.Args[0], nil, nil) {
+			if v == ssa.Value(ignores) {
+				found++
+				return
+			}
+		}
+	})
+	r.check(found >= 1, relName(fn)+":trailing separators of a skip entry are removed", fn.Pos(), fn,
+		"entries are normalised before classification", "a skip entry is classified as written: one with a trailing separator can never match a path")
+}
+
 func round12(c *Ctx, r *Report, prop string) {
 	switch prop {
 	case "C06":
@@ -561,6 +597,8 @@ func round12(c *Ctx, r *Report, prop string) {
 		c11r28(c, r)
 	case "C12":
 		c12r16(c, r)
+	case "C19":
+		c19r20(c, r)
 	case "C14":
 		c14r25(c, r)
 		c14r26(c, r)
